@@ -3,7 +3,7 @@ The strategy-level clauses (validity predicate, RUNNING filter, None iff nobody 
 specification functions (qualifies, fits, node_requests, placement_pre, ...) are reused here.
 
 Abstractions (see also c14.py): the sums are ghost quantities -
-  node_requests(lrm, m)                      per machine sum of the request map lrm (NR)
+  node_requests(mapper, lrm, m)              per machine sum of the request map lrm (NR, a setsum proved on the code)
   Starter.ghost_node_requests[m]             AllPending(m): 'the starts already requested there', over ALL the jobs of the
                                              Starter (the statement's quantity), see GetLoadRequests
 """
@@ -130,7 +130,7 @@ def all_pending(supvisors, m):
 @contract('commander:ApplicationStartJobs.get_load_requests', props=['C04', 'C14'])
 class GetLoadRequests:
     """ASSUMED abstraction: {identifier: sum of expected_load of the commands of THIS application job that target it and
-    whose process is still stopped}.  The sums are not unfolded: per machine they are the ghost node_requests(result, m).
+    whose process is still stopped}.  The sums per identifier are not unfolded; per machine they are node_requests(mapper, result, m).
     Assumed with it: every key is the target of a command of this job - an instance that was RUNNING, hence identified,
     when chosen (identification is never undone) - and this job is one of the Starter's jobs with loads >= 0, so its
     pending load per machine is at most the pending load of all jobs (AllPending)."""
@@ -144,7 +144,8 @@ class GetLoadRequests:
         return forall(result, lambda i: mapper_knows(self.supvisors, i))
 
     def post_part_of_all_pending(self, result):
-        return forall(str, lambda m: 0 <= node_requests(result, m) and node_requests(result, m) <= all_pending(self.supvisors, m))
+        return forall(str, lambda m: 0 <= node_requests(self.supvisors.mapper, result, m)
+                      and node_requests(self.supvisors.mapper, result, m) <= all_pending(self.supvisors, m))
 
     def post_fresh(self, result):
         return was_fresh(result)
